@@ -277,25 +277,35 @@ func (svc *service) stop() {
 }
 
 func (svc *service) publish(msg *message.PublishMessage, onComplete OnCompleteFunc) error {
+	// A request that needs an acknowledgement is registered in the ack queue
+	// before it is written: the acknowledgement may be processed before this
+	// call gets to run again, and would otherwise find nothing to complete.
+	switch msg.QoS() {
+	case message.QosAtLeastOnce:
+		if err := assignPacketID(msg); err != nil {
+			return err
+		}
+		if err := svc.sess.Pub1ack.Wait(msg, onComplete); err != nil {
+			return err
+		}
+
+	case message.QosExactlyOnce:
+		if err := assignPacketID(msg); err != nil {
+			return err
+		}
+		if err := svc.sess.Pub2out.Wait(msg, onComplete); err != nil {
+			return err
+		}
+	}
+
 	_, err := svc.writeMessage(msg)
 	if err != nil {
 		return fmt.Errorf("(%s) Error sending %s message: %v", svc.cid(), msg.Name(), err)
 	}
 	verifYield("publish.afterwrite", svc)
 
-	switch msg.QoS() {
-	case message.QosAtMostOnce:
-		if onComplete != nil {
-			return onComplete(msg, nil, nil)
-		}
-
-		return nil
-
-	case message.QosAtLeastOnce:
-		return svc.sess.Pub1ack.Wait(msg, onComplete)
-
-	case message.QosExactlyOnce:
-		return svc.sess.Pub2out.Wait(msg, onComplete)
+	if msg.QoS() == message.QosAtMostOnce && onComplete != nil {
+		return onComplete(msg, nil, nil)
 	}
 
 	return nil
@@ -305,12 +315,6 @@ func (svc *service) subscribe(msg *message.SubscribeMessage, onComplete OnComple
 	if onPublish == nil {
 		return fmt.Errorf("onPublish function is nil. No need to subscribe")
 	}
-
-	_, err := svc.writeMessage(msg)
-	if err != nil {
-		return fmt.Errorf("(%s) Error sending %s message: %v", svc.cid(), msg.Name(), err)
-	}
-	verifYield("subscribe.afterwrite", svc)
 
 	var onc OnCompleteFunc = func(msg, ack message.Message, err error) error {
 		onComplete := onComplete
@@ -379,16 +383,24 @@ func (svc *service) subscribe(msg *message.SubscribeMessage, onComplete OnComple
 		return err2
 	}
 
-	return svc.sess.Suback.Wait(msg, onc)
-}
+	// Register first, then send (see publish).
+	if err := assignPacketID(msg); err != nil {
+		return err
+	}
+	if err := svc.sess.Suback.Wait(msg, onc); err != nil {
+		return err
+	}
 
-func (svc *service) unsubscribe(msg *message.UnsubscribeMessage, onComplete OnCompleteFunc) error {
 	_, err := svc.writeMessage(msg)
 	if err != nil {
 		return fmt.Errorf("(%s) Error sending %s message: %v", svc.cid(), msg.Name(), err)
 	}
-	verifYield("unsubscribe.afterwrite", svc)
+	verifYield("subscribe.afterwrite", svc)
 
+	return nil
+}
+
+func (svc *service) unsubscribe(msg *message.UnsubscribeMessage, onComplete OnCompleteFunc) error {
 	var onc OnCompleteFunc = func(msg, ack message.Message, err error) error {
 		onComplete := onComplete
 
@@ -442,11 +454,30 @@ func (svc *service) unsubscribe(msg *message.UnsubscribeMessage, onComplete OnCo
 		return err2
 	}
 
-	return svc.sess.Unsuback.Wait(msg, onc)
+	// Register first, then send (see publish).
+	if err := assignPacketID(msg); err != nil {
+		return err
+	}
+	if err := svc.sess.Unsuback.Wait(msg, onc); err != nil {
+		return err
+	}
+
+	_, err := svc.writeMessage(msg)
+	if err != nil {
+		return fmt.Errorf("(%s) Error sending %s message: %v", svc.cid(), msg.Name(), err)
+	}
+	verifYield("unsubscribe.afterwrite", svc)
+
+	return nil
 }
 
 func (svc *service) ping(onComplete OnCompleteFunc) error {
 	msg := message.NewPingreqMessage()
+
+	// Register first, then send (see publish).
+	if err := svc.sess.Pingack.Wait(msg, onComplete); err != nil {
+		return err
+	}
 
 	_, err := svc.writeMessage(msg)
 	if err != nil {
@@ -454,7 +485,17 @@ func (svc *service) ping(onComplete OnCompleteFunc) error {
 	}
 	verifYield("ping.afterwrite", svc)
 
-	return svc.sess.Pingack.Wait(msg, onComplete)
+	return nil
+}
+
+// assignPacketID makes sure msg carries its packet ID before it is registered in
+// an ack queue: a message without one gets it assigned when it is encoded.
+func assignPacketID(msg message.Message) error {
+	if msg.PacketID() != 0 {
+		return nil
+	}
+	_, err := msg.Encode(make([]byte, msg.Len()))
+	return err
 }
 
 func (svc *service) isDone() bool {
